@@ -108,7 +108,7 @@ def run(seed=0, rounds=150):
             n_checks[0] += 1
         return None
 
-    ex = Explorer()
+    ex = Explorer(path_ops=10 ** 9, path_wall_s=600)
     ex.explore(fn, lambda res, e: None)
     # symbolic-character differential: one free char, every path's model must agree with str
     paths = [0]
